@@ -16,6 +16,7 @@ if not os.path.isdir(wt):
 def pristine():
     sh("git checkout -q -- . && git clean -fdq", cwd=wt)
 pristine()
+sh("git checkout -q --detach $(git -C /repo rev-parse HEAD)", cwd=wt)  # always test against /repo's current HEAD
 ran = []
 rc, out = sh("bash %s/demo.sh %s" % (src, wt)); ran.append({"cmd": "demo.sh on pristine tree", "rc": rc, "tail": out[-400:]})
 demo_pass_without = rc == 0
